@@ -336,6 +336,8 @@ def run(ctx):
     mv_sets = [("AB", "A"), ("A", "AB"), ("An0", "AP"), ("AB", "AB")] if ctx.tier == "quick" else [(a, b) for a in QUICK_MV for b in QUICK_MV]
     for ls in mv_sets:
         cs = [dict(c, multi_video=True) for c in configs_small(list(ls), False, True, handover)]
+        if ctx.tier == "quick":  # anchor_part None (centroid = bounding-box midpoint) is otherwise only in the thorough grid
+            cs += [dict(c, anchor=None) for c in cs if c["model"] in ("centroid", "centered_instance")]
         if cs:
             groups.append((list(ls), False, cs))
     # ... and two-video sets whose videos have DIFFERENT frame sizes (the size matcher has real work to do on the smaller
@@ -363,7 +365,7 @@ def run(ctx):
         "heads_sigma_stride": HEADS,
         "size_matcher_target": [None, list(Hh.BIG_HW)],
         "source_rgb_x_is_rgb": "all four pairs",
-        "anchor": [0] + ([None] if ctx.tier == "thorough" else []),
+        "anchor": [0, None],
         "crop_hw": [[32, 32], [24, 40]],
         "user_instances_only": [True, False],
         "litdata_handover": handover,
